@@ -635,7 +635,12 @@ func (g *gen) genAggRule(h PredInfo, env *varEnv) (Rule, bool) {
 				// (no wildcards here: whether an anonymous column counts as part
 				// of a "solution" differs between single- and multi-atom bodies
 				// and the statement does not settle it)
-				args = append(args, C(g.constOf(t)))
+				if t.IsSet() {
+					// no list constants against set-valued columns (element order is unspecified)
+					args = append(args, V(env.fresh(t)))
+				} else {
+					args = append(args, C(g.constOf(t)))
+				}
 			}
 		}
 		body = append(body, Lit{K: LAtom, Pred: q.Name, Args: args})
